@@ -86,7 +86,10 @@ def _format_locations_text(others: list[ConstantLocation]) -> str:
     """Format other locations as text (module-level helper)."""
     if not others:
         return ""
-    parts = [_format_single_location(loc) for loc in others[:MAX_DISPLAYED_LOCATIONS]]
+    parts = [
+        _format_single_location(loc)
+        for loc in sorted(others, key=lambda o: (str(o.file_path), o.line_number))[:MAX_DISPLAYED_LOCATIONS]
+    ]
     result = "Also found in: " + ", ".join(parts)
     extra = len(others) - MAX_DISPLAYED_LOCATIONS
     return result + (f" and {extra} more." if extra > 0 else ".")
